@@ -64,6 +64,8 @@ ReqImportForeign(a, out, o) ==
      <<"C17.serial_eq", o.params.serial.k = "given" /\ StripZeros(o.params.serial.b) = StripZeros(a.src.serial)>>,
      <<"C17.validity_eq", o.params.nb = a.src.nb /\ o.params.na = a.src.na>>,
      <<"C17.ski_captured_as_prespecified", a.cert.ski.k = "some" => o.params.kid = [k |-> "pre", b |-> a.cert.ski.b]>>,
+     (* the supported subtrees of a foreign certificate's name constraints, per side and in order (cases that carry them) *)
+     <<"C17.nc_supported_subtrees_eq", "ncExpect" \in DOMAIN a.src /\ a.src.ncExpect.k = "some" => o.params.nc = a.src.ncExpect>>,
      <<"C17.pem_der_agree", o.pemDerAgree>>
    } ELSE {})
 
